@@ -7,6 +7,7 @@ use std::marker::PhantomData;
 use std::sync::Arc;
 
 use p2panda_auth::Access;
+use p2panda_auth::group::GroupAction;
 use p2panda_auth::traits::{Conditions, Operation};
 use p2panda_core::traits::{Digest, Provenance};
 use p2panda_core::{Hash, SigningKey, VerifyingKey};
@@ -246,7 +247,17 @@ where
 
                 (None, None, vec![event])
             }
-            SpacesArgs::Auth { .. } => {
+            SpacesArgs::Auth { group_action, .. } => {
+                // Promoting and demoting members is not supported yet, neither by the group events
+                // nor by the encryption context of spaces. Reject such messages instead of
+                // accepting them into the auth state.
+                if matches!(
+                    group_action,
+                    GroupAction::Promote { .. } | GroupAction::Demote { .. }
+                ) {
+                    return Err(ManagerError::UnsupportedMessage(message.hash()));
+                }
+
                 let event = Group::process(self.clone(), &SpacesMessage::auth(message))
                     .await
                     .map_err(ManagerError::Group)?;
@@ -271,7 +282,10 @@ where
                     (None, None, vec![])
                 }
             }
-            SpacesArgs::SpaceUpdate { .. } => unimplemented!(),
+            // Rotating the entropy of a space is not supported yet.
+            SpacesArgs::SpaceUpdate { .. } => {
+                return Err(ManagerError::UnsupportedMessage(message.hash()));
+            }
             // Received encrypted application data for a space.
             SpacesArgs::Application { space_id, .. } => {
                 let Some(space) = self.space(*space_id).await? else {
@@ -502,6 +516,12 @@ where
             };
 
             match message.borrow() {
+                SpacesArgs::Auth {
+                    group_action: GroupAction::Promote { .. } | GroupAction::Demote { .. },
+                    ..
+                } => {
+                    return Err(ManagerError::UnsupportedMessage(auth_message_id));
+                }
                 SpacesArgs::Auth { .. } => SpacesMessage::auth(&message),
                 _ => {
                     return Err(ManagerError::IncorrectMessageVariant(auth_message_id));
@@ -738,6 +758,9 @@ where
 
     #[error("unexpected message variant, expected auth {0}")]
     IncorrectMessageVariant(Hash),
+
+    #[error("message {0} uses a feature which is not supported yet")]
+    UnsupportedMessage(Hash),
 
     #[error(transparent)]
     Rng(#[from] RngError),
